@@ -178,7 +178,11 @@ func (vm *VM) Run() error {
 			}
 			elements := make([]value, 0, len(left.Elements)*repetitions)
 			for range repetitions {
-				elements = append(elements, left.Elements...)
+				// a deep copy is performed on the array elements before
+				// each repetition, as in the evaluator.
+				for _, el := range left.Elements {
+					elements = append(elements, deepCopy(el))
+				}
 			}
 			err = vm.push(arrayVal{Elements: elements})
 		case OpMap:
